@@ -270,8 +270,93 @@ def conc_job(mode, group_specs):
     return job
 
 
+# ---- the SPELLING of the request target -------------------------------------------------------
+# One name has many RFC 3986-equivalent spellings.  The server's own menus percent-encode everything
+# but "/"; a client may send the characters a path segment allows literally (unreserved, sub-delims,
+# ":" and "@"), write escapes in lower case, escape characters that need no escape, or (HTTP) send the
+# absolute form of the target.  Every spelling names the same file: it is delivered with that file's
+# bytes and type -- never another file's (decoys named like the truncated forms stand next to it).
+UNRESERVED = frozenset(b"abcdefghijklmnopqrstuvwxyzABCDEFGHIJKLMNOPQRSTUVWXYZ0123456789-._~")
+PCHAR_LITERAL = UNRESERVED | frozenset(b"!$&'()*+,;=:@")
+SPELL_CHARS = [";", "=", ",", ":", "@", "!", "$", "&", "'", "(", ")", "*", "+"]
+SPELL_STEMS = ["report", "README", "backup", "index", "a b", "Makefile", "notes"]
+SPELL_EXTS = [".txt", ".pdf", ".tar", ".png", ".csv", ".gif", "", ".json", ".mp3"]
+SPELL_MODES = ["literal", "lowerhex", "allhex", "mixed", "absolute"]
+
+
+def spell_files(rng, tier):
+    """[(path, bytes, is_decoy)]: names with a path-segment delimiter in the LAST component, and decoys
+    named like what is left when the name is cut at such a character (other bytes, mostly another type)"""
+    names = ["report;v2.txt", "README;1", "backup;1.tar", "a+b;c=d,e.png", ";lead.pdf", "trail.gif;", "x;y;z.csv",
+             "p;x=1/q;y=2.mp3", "d;1/plain.png"]
+    k = rng.randrange(len(SPELL_EXTS))
+    for i, ch in enumerate(SPELL_CHARS):
+        for j in range(1 if tier == "quick" else 4):
+            stem = SPELL_STEMS[(i + j + k) % len(SPELL_STEMS)]
+            ext = SPELL_EXTS[(i + 2 * j + k) % len(SPELL_EXTS)]
+            tail = rng.choice(["v2", "1", "x=1", "old", ""])
+            names.append(rng.choice([stem + ch + tail + ext, stem + ext + ch + tail, stem + ch + ch + tail + ext,
+                                     stem + ch + tail + rng.choice(SPELL_CHARS) + "z" + ext]))
+    names = list(dict.fromkeys(names))
+    taken = set(names) | {n.split("/")[0] for n in names if "/" in n}
+    decoys = []
+    for n in names:
+        d, _, last = n.rpartition("/")
+        for ch in SPELL_CHARS + [" "]:
+            cut = last.split(ch)[0]
+            if ch == "+":
+                cut = last.replace("+", " ")                    # the form-decoding reading of "+"
+            cand = (d + "/" if d else "") + cut
+            if cut and cut != last and cand not in taken and not any(t.startswith(cand + "/") for t in taken):
+                taken.add(cand)
+                decoys.append(cand)
+    out = [("q/" + n, ("document %r\n" % n).encode() + rand_bytes(rng, 24), False) for n in names]
+    out += [("q/" + n, ("DECOY %r -- not what was asked for\n" % n).encode() + rand_bytes(rng, 8), True) for n in decoys]
+    return out
+
+
+def spell_target(raw, mode, rng):
+    """one spelling of the path `raw` (bytes, starts with "/")"""
+    out = bytearray()
+    for c in raw:
+        if c == 0x2f:
+            out.append(c)
+            continue
+        if mode == "literal" or mode == "absolute":
+            enc, low = c not in PCHAR_LITERAL, False
+        elif mode == "lowerhex":
+            enc, low = c not in UNRESERVED, True
+        elif mode == "allhex":
+            enc, low = True, rng.random() < 0.5
+        else:
+            enc, low = c not in PCHAR_LITERAL or rng.random() < 0.4, rng.random() < 0.5
+        out += (b"%%%02x" if low else b"%%%02X") % c if enc else bytes([c])
+    return bytes(out)
+
+
+def spell_request(proto, raw, mode, rng, meth="GET"):
+    """(request bytes, tls, may be refused outright)"""
+    t = spell_target(raw, mode, rng)
+    tls = gen.TLS[proto]
+    if proto in ("http", "https", "wap"):
+        pre = b"/wap" if proto == "wap" else b""
+        if mode == "absolute":
+            sch = b"https" if proto == "https" else b"http"
+            return (meth.encode() + b" " + sch + b"://gopher.example" + pre + t +
+                    b" HTTP/1.1\r\nHost: gopher.example\r\n\r\n"), tls, True
+        return meth.encode() + b" " + pre + t + b" HTTP/1.0\r\n\r\n", tls, False
+    if proto == "gemini":
+        host = b"GOPHER.example" if mode == "absolute" else b"gopher.example"
+        return b"gemini://" + host + t + b"\r\n", tls, False
+    return b"gopher.example " + t + b" 0\r\n", tls, False
+
+
 def latin(b):
     return b.decode("latin-1")
+
+
+def sel_bytes_of(path_latin):
+    return b"/" + path_latin.encode("latin-1")
 
 
 def sel_of(path_latin):
@@ -741,12 +826,35 @@ def run(tier):
             rq.append((proto, "HEAD", d_.replace(b"GET ", b"HEAD ", 1), t_))
         fcases.append({"fault": fault, "path": target, "selector": req_sel, "rq": rq,
                        "requests": [{"data": gen.lat(d_), "tls": t_} for _, _, d_, t_ in rq]})
+    # ---- the same document under the spellings of its name a client may send ----
+    sfiles = spell_files(rng, tier)
+    stree = [{"path": p_, "data": latin(d_), "mtime": 1_700_000_000} for p_, d_, _ in sfiles]
+    splan = []          # (path, data, proto, meth, request, tls, mode, may_refuse)
+    for fi_, (p_, d_, decoy) in enumerate(sfiles):
+        if decoy:
+            continue
+        raw = sel_bytes_of(p_)
+        modes = SPELL_MODES if tier == "thorough" else ["literal", SPELL_MODES[1 + (fi_ % 4)]]
+        for mi_, mode in enumerate(modes):
+            sprotos = ["http", "https", "wap", "gemini", "spartan"]
+            if tier == "quick" and mode != "literal":
+                sprotos = [sprotos[(fi_ + mi_) % 3], sprotos[3 + fi_ % 2]]
+            for proto in sprotos:
+                if mode == "absolute" and proto == "spartan":
+                    continue
+                rb, tl, mr = spell_request(proto, raw, mode, rng)
+                splan.append((p_, d_, proto, "GET", rb, tl, mode, mr))
+                if mode == "literal" and proto in HEAD_PROTOS and (tier == "thorough" or proto == HEAD_PROTOS[fi_ % 3]):
+                    rb, tl, mr = spell_request(proto, raw, mode, rng, meth="HEAD")
+                    splan.append((p_, d_, proto, "HEAD", rb, tl, mode, mr))
     # ---- several documents in flight at once (one thread per connection, as ThreadingTCPServer runs them) ----
     cg_sched, cg_live = conc_groups(rng, tier)
     xres = impl_run_parallel([{"op": "c04_history", "tree": htree, "steps": hsteps},
                               {"op": "c04_faults", "tree": ftree,
                                "cases": [{k_: c_[k_] for k_ in ("fault", "path", "requests")} for c_ in fcases]},
-                              conc_job("sched", cg_sched), conc_job("live", cg_live)], chunks=4)
+                              conc_job("sched", cg_sched), conc_job("live", cg_live),
+                              {"op": "c04_world", "tree": stree, "config": None,
+                               "requests": [{"data": gen.lat(x[4]), "tls": x[5]} for x in splan]}], chunks=5)
     for r in xres:
         if not r["ok"]:
             raise RuntimeError(r["err"] + "\n" + r.get("tb", ""))
@@ -761,6 +869,23 @@ def run(tier):
                             "proto": proto, "meth": meth, "req": reqb, "tls": tls, "out": base64.b64decode(o["out_b64"]),
                             "exc": o["exc"], "log": o["log"], "request_index": qi})
     sel_guess.update({sel_of(pth): twin_guess(sel_of(pth), T) for pth in hdocs})
+    n_refused = 0
+    for x, o in zip(splan, xres[4]["res"]["results"]):
+        p_, d_, proto, meth, rb, tl, mode, mr = x
+        out = base64.b64decode(o["out_b64"])
+        chk.count(("spelling", p_, proto, meth, mode))
+        # (an absolute-form target does not begin with "/wap": the server takes it for plain HTTP)
+        if mr and (gen.notfound_class(proto, out) or (proto == "wap" and gen.notfound_class("http", out))):
+            n_refused += 1              # a form the server does not support, refused outright: nobody's bytes
+            continue
+        sdir = p_.rsplit("/", 1)[0] + "/"
+        records.append({"cfg": "spell", "path": p_, "sel": sel_of(p_), "data": d_, "special": None, "proto": proto,
+                        "meth": meth, "req": rb, "tls": tl, "out": out, "exc": o["exc"], "log": o["log"], "nok": True,
+                        "spelling": mode,
+                        "world": {"tree": [e_ for e_ in stree if e_["path"].startswith(sdir)], "config": "default"}})
+    sel_guess.update({sel_of(p_): twin_guess(sel_of(p_), T) for p_, _, _ in sfiles})
+    cov["spellings"] = {"documents": sum(1 for x in sfiles if not x[2]), "decoys": sum(1 for x in sfiles if x[2]),
+                        "requests": len(splan), "refused_outright_absolute_form": n_refused, "modes": SPELL_MODES}
     conc_stalled = []
     for mode, specs, xr in (("sched", cg_sched, xres[2]), ("live", cg_live, xres[3])):
         ddata = {pth: pattern_doc(t_, n_) for pth, t_, n_ in (CONC_DOCS if mode == "sched" else LIVE_CONC_DOCS)}
@@ -789,6 +914,8 @@ def run(tier):
             return {"tree": history_of[r["cfg"]]["tree"], "config": "history", "steps": history_of[r["cfg"]]["steps"],
                     "request_index_in_last_step": r.get("request_index"),
                     "note": "requests follow each change at once, in one long-lived process"}
+        if r.get("world"):
+            return r["world"]
         if r.get("conc"):
             docs = CONC_DOCS if r["conc"]["mode"] == "sched" else LIVE_CONC_DOCS
             return {"config": "concurrent", "mode": r["conc"]["mode"], "group": r["conc"]["group"],
@@ -805,6 +932,10 @@ def run(tier):
     def report(r, what, tag, **extra):
         nonlocal found
         found = True
+        if r.get("spelling"):
+            tag += ":spelling"
+            what += " (request target spelled in the %r form; equivalent spellings name the same file)" % r["spelling"]
+            extra = dict(extra, spelling=r["spelling"])
         if r.get("conc"):
             tag += ":concurrent"
             what += " (several documents in flight at once)"
@@ -1071,7 +1202,9 @@ def run(tier):
                    "the real ThreadingTCPServer with real TLS clients (live leg); names with URL-scheme-like prefixes "
                    "(data:, http:, ... in several spellings and data-URL shapes), URL delimiters after the extension, "
                    "leading/trailing dots, percent escapes and backslashes, below directories and directly below the root; "
-                   "groups of 2-5 different multi-block documents in flight at once (in-process under a deterministic "
+                   "documents with path-segment delimiters in the last component next to decoys named like the truncated forms, "
+                   "requested in literal / lower-case / fully escaped / mixed / absolute-form spellings over HTTP, HTTPS, WAP, "
+                   "Gemini, Spartan; groups of 2-5 different multi-block documents in flight at once (in-process under a deterministic "
                    "scheduler with blocking points inside every write(), and on the real threaded server with a small send "
                    "buffer and slow clients), "
                    "served over a real socket; non-trivial = non-empty file / string with a special character / name with a known type")
@@ -1087,6 +1220,7 @@ def run(tier):
         "subprocess decompression and TAL expansion are external: the model takes their output as given (gzip plain text known to the harness; TAL output = what plain Gopher delivered)",
         "1 MiB documents are compared through (length, Adler-32) inside Coq and byte for byte by the search",
         "the advertised type of a name is read from the documented tables by the name's extension alone (last dot of the last path component, not among leading dots): nothing before the extension (scheme-like prefixes, URL delimiters) plays a part; names containing '..' are not generated (such selectors are refused outright)",
+        "spellings of a request target (sub-delims, ':' and '@' literal; lower-case, needless and mixed escapes) are RFC 3986-equivalent and must deliver the named file; the HTTP absolute form may instead be refused outright with the protocol's not-found answer; judged by the search only",
         "concurrent transfers (one thread per connection, servertype = ThreadingTCPServer) are judged by the search only: the model serves one request at a time; a wfile may read the block it is given at any time during write() (as sendall does) but not after it returns; the live concurrent leg sets a small SO_SNDBUF on the listening socket (an operating-system setting) so that handlers block inside write()",
     ]
     return chk.finish("proof")
